@@ -93,29 +93,31 @@ def run_jobs(c, name, fn, jobs, rule="", nworkers=None, deadline_s=120, confirm=
         if errors:
             raise vcheck.Broken("driver error in layer %s (%d jobs): %s" % (name, len(errors), errors[0]["error"]))
         seen_cls = {}
+        known_cls = {f["class"] for f in c.known()}
         for r in pending_confirm:
             cls, detail = r["violation"]
+            nconf = 1 if cls in known_cls else confirm
             if seen_cls.get(cls, 0) >= 3:
                 L.vclasses[cls] = L.vclasses.get(cls, 0) + 1  # counted, not re-confirmed one by one
                 continue
             fails = 0
-            for _ in range(confirm):
+            for _ in range(nconf):
                 rr = pool.apply(_call, ((fn, r["job"]),))
                 v = rr.get("violation")
                 if v and v[0] == cls:
                     fails += 1
                 else:
                     break
-            if fails == confirm:
+            if fails == nconf:
                 seen_cls[cls] = seen_cls.get(cls, 0) + 1
                 d = dict(detail)
                 d["job"] = r["job"]
-                d["confirmed_runs"] = confirm
+                d["confirmed_runs"] = nconf
                 L.violation(cls, d)
             else:
                 L.counters["unconfirmed_disagreements"] = L.counters.get("unconfirmed_disagreements", 0) + 1
                 if len(L.notes) < 10:
-                    L.notes.append("unconfirmed (%d/%d re-runs failed): %s %s" % (fails, confirm, cls, str(r["job"])[:300]))
+                    L.notes.append("unconfirmed (%d/%d re-runs failed): %s %s" % (fails, nconf, cls, str(r["job"])[:300]))
     finally:
         pool.terminate()
         pool.join()
